@@ -89,8 +89,14 @@ class HTMLTokenizer(object):
             charStack.append(c)
             c = self.stream.char()
 
-        # Convert the set of characters consumed to an int.
-        charAsInt = int("".join(charStack), radix)
+        # Convert the set of characters consumed to an int. More than seven
+        # significant digits are beyond U+10FFFF in either radix, and int()
+        # refuses very long decimal strings, so do not convert those.
+        number = "".join(charStack).lstrip("0")
+        if len(number) > 7:
+            charAsInt = 0x110000
+        else:
+            charAsInt = int(number or "0", radix)
 
         # Certain characters get replaced with others
         if charAsInt in replacementCharacters:
